@@ -1,6 +1,6 @@
 ------------------------------- MODULE MCCaps -------------------------------
 EXTENDS Caps, Json
-StateRec == [wanted |-> wanted, mech |-> mech, adv |-> adv, held |-> held, phase |-> phase, steps |-> steps]
+StateRec == [wanted |-> wanted, mech |-> mech, adv |-> adv, held |-> held, phase |-> phase, gen |-> gen, steps |-> steps]
 Emit == PrintT("EDGE " \o ToJson([f |-> StateRec, o |-> lastOp', t |-> StateRec']))
 MCView == state
 =============================================================================
